@@ -789,6 +789,8 @@ class Interp:
         if isinstance(it, (list, tuple)) and not (isinstance(it, tuple) and it and isinstance(it[0], str) and it[0] in TAGS):
             return list(it)
         if isinstance(it, SetVal):
+            if getattr(it, 'open', False):
+                return None
             if len(it.elems) <= 1:
                 return list(it.elems)
             return None
@@ -982,6 +984,11 @@ class Interp:
                     return None
                 if ('set_update',) in self.hooks:
                     return self.hooks[('set_update',)](self, o, src)
+                if isinstance(src, SymColl):
+                    # elements of unknown number are added: the set is 'open' from here on (no enumeration possible)
+                    o.open = True
+                    self.ctx.events.append(Event('set-opened', obj=o, src=src, loops=list(self.ctx.loop_stack)))
+                    return None
             if name == 'add':
                 if not any(args[0] is y for y in o.elems):
                     o.elems.append(args[0])
